@@ -50,6 +50,7 @@ inductive Res where
   | ok (m : Mapping)        -- ActivateConnectionCode returned this mapping
   | rok                     -- RevokeConnectionCode returned nil
   | missing | notfound | forbidden | used | expired | badaddr | quota | busy | storage | internal
+  | seen (activated revoked : Bool)   -- GetConnectionCode (status poll) returned the record with these flags
 deriving DecidableEq, Repr
 
 inductive Pc where
@@ -98,7 +99,13 @@ structure Thread where
   surrounding blanks, …).  Claim key and record key are both the raw string, so a request with another
   spelling claims another key and finds no record. -/
   spell : Nat := 0
+  /-- The call is a status poll (`Service.GetConnectionCode`): it reads the record without a claim and writes
+  nothing.  Its storage read is two scheduling points: performed (the value is fixed) and returned. -/
+  poll : Bool := false
 deriving DecidableEq, Repr
+
+/-- An activation / revocation that spells the code as generated: the calls the claim serialises. -/
+def Thread.isMain (t : Thread) : Bool := t.spell == 0 && !t.poll
 
 /-- cloudutils.ParseListenAddress on the harness table ["", "0.0.0.0:9001", "127.0.0.1:9002", "no-port-here", "0.0.0.0:70000"]. -/
 def listenOk (a : Nat) : Bool := a == 1 || a == 2
@@ -166,6 +173,14 @@ def tstepO (v : Variant) (st : Store) (t : Thread) : Store × Thread :=
     else ({ st with oclaims := st.oclaims.filter (· != t.spell) }, { t with pc := .done })
   | _ => (st, { t with pc := .done })
 
+/-- A status poll: the read is performed (what it will report is fixed now), later it returns. -/
+def tstepP (st : Store) (t : Thread) : Store × Thread :=
+  match t.pc with
+  | .start =>
+    (st, { t with pc := .claimed,
+                  res := some (if t.spell == 0 && st.present then .seen st.code.IsActivated st.code.IsRevoked else .notfound) })
+  | _ => (st, { t with pc := .done })
+
 /-- One phase of thread `i` that spells the code as generated. -/
 def tstepMain (v : Variant) (p : Params) (st : Store) (i : Nat) (t : Thread) : Store × Thread :=
   match t.kind, t.pc with
@@ -211,7 +226,7 @@ def tstepMain (v : Variant) (p : Params) (st : Store) (i : Nat) (t : Thread) : S
 
 /-- One phase of thread `i`. -/
 def tstep (v : Variant) (p : Params) (st : Store) (i : Nat) (t : Thread) : Store × Thread :=
-  if t.spell = 0 then tstepMain v p st i t else tstepO v st t
+  if t.isMain then tstepMain v p st i t else if t.poll then tstepP st t else tstepO v st t
 
 inductive Ev where
   | create            -- CreateConnectionCode stores the code (a second one concerns another code: no effect)
